@@ -2,22 +2,22 @@
 import numpy as np
 
 from .. import lib, pfile
-from . import c02, c03
+from . import c02, c03, c10
 
 ID = 'C01'
 LEAN_MODULE = 'PncProofs.C01'
 LEAN_FILE = 'PncProofs/C01.lean'
 NAMESPACE = 'Props.C01'
-LEAN_CONE = ['PncModel.Arr', 'PncModel.File', 'PncProofs.ArrLemmas', 'PncProofs.C01']
+LEAN_CONE = ['PncModel.Arr', 'PncModel.File', 'PncModel.Ioapi', 'PncProofs.ArrLemmas', 'PncProofs.C01']
 LEMMA_FILES = []
 REQUIRED_THEOREMS = ['build_hasShape', 'mapCells_hasShape', 'zipCells_hasShape', 'mask_wf', 'insertDim_wf',
-                     'rebuilt_shape', 'subset_wf', 'renameVar_wf', 'binop_wf', 'reorder_wf', 'removeSingleton_wf']
+                     'rebuilt_shape', 'subset_wf', 'renameVar_wf', 'binop_wf', 'reorder_wf', 'removeSingleton_wf', 'renameDims_wf', 'renameDim_wf']
 RULE = ('random files (as C02) x random sequences of 1-6 operations (copy, sliceDimensions, applyAlongDimensions, '
-        'subsetVariables, renameVariable, renameDimension, insertDimension, removeSingleton, reorderDimensions, '
+        'subsetVariables, renameVariable, renameDimension, renameDimensions (several at once: chains, swaps, equal targets), insertDimension, removeSingleton, reorderDimensions, '
         'stack with itself, file arithmetic with itself and with a dimension-permuted copy, mask) with in-domain arguments plus ~10% out-of-domain '
         'ones; after EVERY step the real file is checked for well-formedness (oracle) and compared completely '
         '(dimensions with unlimited flags, variables, shapes, data, masks, attribute names) with the model; '
-        'non-trivial = at least two variables with different dimension sets and an operation that changes a length')
+        'IOAPI files: the C10 sequences (copy, slice incl. list+integer windows, subset, rename, apply, eval, mask, stack, interpSigma) compared with the IOAPI model and judged by the same well-formedness predicate plus "TSTEP is unlimited"; non-trivial = at least two variables with different dimension sets and an operation that changes a length')
 ASSUMPTIONS = ['interpDimension and eval are exercised by C17 / C06 rather than inside these sequences']
 MIN_NONTRIVIAL = {'quick': 60, 'thorough': 600}
 
@@ -26,7 +26,7 @@ def _op(rng, st):
     """st: current dims {name: len}, vars {name: dims} (tracked from the model's point of view, best effort)"""
     dims, vs = st['dims'], st['vars']
     names = list(dims)
-    k = rng.choice(['copy', 'slice', 'slice', 'apply', 'subset', 'renamevar', 'renamedim', 'removesingleton',
+    k = rng.choice(['copy', 'slice', 'slice', 'apply', 'subset', 'renamevar', 'renamedim', 'renamedims', 'removesingleton',
                     'insertdim', 'reorder', 'stackself', 'binopself', 'maskgt'])
     bad = rng.random() < 0.08
     if k == 'copy' or not names:
@@ -54,6 +54,14 @@ def _op(rng, st):
         old = 'nosuchdim' if bad else rng.choice(names)
         new = rng.choice(['d_new', 'd_other', 'd_third', rng.choice(names)])
         return ['renamedim', old, new]
+    if k == 'renamedims':
+        # several dimensions in one call: fresh names, chains and swaps through existing names, the own name,
+        # and (sometimes) the same target twice
+        olds = rng.sample(names, rng.randint(1, min(3, len(names))))
+        if bad:
+            olds.append('nosuchdim')
+        pool = ['d_new', 'd_other', 'd_third'] + names
+        return ['renamedims', [[o, rng.choice(pool)] for o in olds]]
     if k == 'removesingleton':
         return ['removesingleton', rng.choice([None, None, rng.choice(names)])]
     if k == 'insertdim':
@@ -90,7 +98,12 @@ def _case(rng):
 
 def gen(rng, tier):
     n = 300 if tier == 'quick' else 10000
-    return [_case(rng) for _ in range(n)]
+    out = [_case(rng) for _ in range(n)]
+    # IOAPI files (the subclass overrides most operations and re-derives dimensions and metadata): the C10 sequences,
+    # judged here by the well-formedness predicate and the TSTEP-unlimited clause
+    for _ in range(n // 6):
+        out.append(dict(family='ioapi', c10=dict(src=c10._src(rng), recipes=[c10._recipe(rng) for _ in range(rng.randint(1, 4))])))
+    return out
 
 
 def _apply(f, op):
@@ -107,6 +120,8 @@ def _apply(f, op):
         return f.renameVariable(op[1], op[2])
     if k == 'renamedim':
         return f.renameDimension(op[1], op[2])
+    if k == 'renamedims':
+        return f.renameDimensions(**{o: n for o, n in op[1]})
     if k == 'removesingleton':
         return f.removeSingleton(op[1])
     if k == 'insertdim':
@@ -128,29 +143,12 @@ def _apply(f, op):
     raise ValueError(k)
 
 
-def _wf(f):
-    """the well-formedness predicate of the property, on the real object"""
-    for vk, v in f.variables.items():
-        for d in v.dimensions:
-            if d not in f.dimensions:
-                return 'variable %s has dimension %s which the file does not have' % (vk, d)
-        want = tuple(len(f.dimensions[d]) for d in v.dimensions)
-        if tuple(np.shape(v[...])) != want:
-            return 'variable %s has shape %s, its dimensions %s have lengths %s' % (vk, np.shape(v[...]), v.dimensions, want)
-        for a in v.ncattrs():
-            try:
-                getattr(v, a)
-            except Exception:
-                return 'attribute %s of %s is listed but not retrievable' % (a, vk)
-    for a in f.ncattrs():
-        try:
-            getattr(f, a)
-        except Exception:
-            return 'global attribute %s is listed but not retrievable' % a
-    return None
+_wf = pfile.wellformed
 
 
 def impl(case):
+    if case.get('family') == 'ioapi':
+        return c10.impl(case['c10'])
     f = pfile.build(case['spec'])
     states = []
     with lib.pnc_warnings():
@@ -175,6 +173,8 @@ def _tok(op):
         return 'apply@%s' % ';'.join('%s=%s' % (n, fn) for n, fn in op[1])
     if k == 'subset':
         return 'subset@%s@%d' % ('.'.join(op[1]) or '-', 1 if op[2] else 0)
+    if k == 'renamedims':
+        return 'renamedims@%s' % ';'.join('%s=%s' % (o, n) for o, n in op[1])
     if k == 'removesingleton':
         return 'removesingleton@%s' % (op[1] or '_')
     if k == 'insertdim':
@@ -185,11 +185,15 @@ def _tok(op):
 
 
 def to_line(case, res):
+    if case.get('family') == 'ioapi':
+        return c10.to_line(case['c10'], res)
     d, v, a = pfile.encode(case['spec'])
     return 'c01 run %s %s %s %s' % (d, v, a, ' '.join(_tok(op) for op in case['ops'] if op[0] != 'binopperm'))
 
 
 def agree(case, out, res):
+    if case.get('family') == 'ioapi':
+        return c10.agree(case['c10'], out, res)
     mstates = out.split(' || ')
     for i, (ms, st) in enumerate(zip(mstates, res['states'])):
         if ms == 'err unspec':
@@ -210,6 +214,17 @@ def agree(case, out, res):
 
 
 def oracle(case, res):
+    if case.get('family') == 'ioapi':
+        if res.get('init_wf'):
+            return 'the %s source file: %s' % (case['c10']['src']['kind'], res['init_wf'])
+        for i, st in enumerate(res['states']):
+            if 'err' in st:
+                return None
+            if st['wf']:
+                return 'IOAPI file after step %d %s: %s' % (i, res['ops'][i], st['wf'])
+            if st['tstep_unlimited'] is False:
+                return 'IOAPI file after step %d %s: the TSTEP dimension is not unlimited' % (i, res['ops'][i])
+        return None
     for i, st in enumerate(res['states']):
         if 'err' in st:
             return None         # raising is allowed outside the documented domain; in-domain completion is
@@ -217,7 +232,7 @@ def oracle(case, res):
         if st['wf']:
             return 'after step %d (%s): %s' % (i, case['ops'][i][0], st['wf'])
         got = pfile.parse_obs(st['obs'])
-        renamed = case['ops'][i][0] == 'renamedim'
+        renamed = case['ops'][i][0] in ('renamedim', 'renamedims')
         for k, (ln, u) in got['dims'].items():
             if k in st['unlim_before'] and not renamed:
                 if (u == 'u') != st['unlim_before'][k]:
@@ -230,6 +245,8 @@ def classify(case, failure, model_out):
 
 
 def nontrivial(case, res):
+    if case.get('family') == 'ioapi':
+        return c10.nontrivial(case['c10'], res)
     sets = {tuple(sorted(v['dims'])) for v in case['spec']['vars']}
     return len(sets) >= 2 and any(op[0] in ('slice', 'apply', 'stackself', 'insertdim', 'removesingleton') for op in case['ops'])
 
@@ -237,6 +254,11 @@ def nontrivial(case, res):
 def distribution(recs):
     d = {}
     for r in recs:
+        if r['case'].get('family') == 'ioapi':
+            for op, st in zip(r['impl']['ops'], r['impl']['states']):
+                key = 'ioapi:' + op[0] + ('!' if 'err' in st else '')
+                d[key] = d.get(key, 0) + 1
+            continue
         for op, st in zip(r['case']['ops'], r['impl']['states']):
             key = op[0] + ('!' if 'err' in st else '')
             d[key] = d.get(key, 0) + 1
